@@ -124,7 +124,8 @@ static void hash_insert(vnacal_new_parameter_hash_t *vnphp,
     }
     vnprp->vnpr_hash_next = next;
     *anchor = vnprp;
-    if (++vnphp->vnph_count >= vnphp->vnph_allocation) {
+    vnprp->vnpr_serial = ++vnphp->vnph_count;
+    if (vnphp->vnph_count >= vnphp->vnph_allocation) {
 	(void)hash_expand(vnphp);
     }
 }
@@ -163,6 +164,59 @@ void _vnacal_new_free_parameter_hash(vnacal_new_parameter_hash_t *vnphp)
 	free((void *)vnphp->vnph_table);
 	(void)memset((void *)vnphp, 0, sizeof(*vnphp));
     }
+}
+
+/*
+ * _vnacal_new_forget_parameters: remove the parameters added after count
+ *   @vnp: pointer to vnacal_new_t structure
+ *   @count: number of parameters in the hash to keep (vnph_count before)
+ *
+ *   Undoes the parameter look-ups of a vnacal_new_add_* call that
+ *   failed, so that a rejected standard leaves nothing behind.
+ */
+void _vnacal_new_forget_parameters(vnacal_new_t *vnp, int count)
+{
+    vnacal_new_parameter_hash_t *vnphp = &vnp->vn_parameter_hash;
+    vnacal_new_parameter_t **anchor, *vnprp;
+
+    if (vnphp->vnph_table == NULL || vnphp->vnph_count <= count) {
+	return;
+    }
+
+    /*
+     * Unknown parameters are on their list in the order they were
+     * added: cut the list before the first one to remove.
+     */
+    anchor = &vnp->vn_unknown_parameter_list;
+    while ((vnprp = *anchor) != NULL && vnprp->vnpr_serial <= count) {
+	anchor = &vnprp->vnpr_next_unknown;
+    }
+    *anchor = NULL;
+    vnp->vn_unknown_parameter_anchor = anchor;
+
+    /*
+     * Remove them from the hash and release the parameters.
+     */
+    for (int bucket = 0; bucket < vnphp->vnph_allocation; ++bucket) {
+	anchor = &vnphp->vnph_table[bucket];
+	while ((vnprp = *anchor) != NULL) {
+	    if (vnprp->vnpr_serial <= count) {
+		anchor = &vnprp->vnpr_hash_next;
+		continue;
+	    }
+	    *anchor = vnprp->vnpr_hash_next;
+	    if (vnprp->vnpr_unknown) {
+		--vnp->vn_unknown_parameters;
+		if (VNACAL_GET_PARAMETER_TYPE(vnprp->vnpr_parameter) ==
+			VNACAL_CORRELATED) {
+		    --vnp->vn_correlated_parameters;
+		}
+	    }
+	    _vnacal_release_parameter(vnprp->vnpr_parameter);
+	    free((void *)vnprp);
+	}
+    }
+    vnphp->vnph_count = count;
 }
 
 /*
